@@ -165,7 +165,7 @@ TBcb ==
 \* a pending call of g could take a step of the specification now (so the real call should not be stuck)
 CanProgress(g) ==
   LET p == pend[g] e == TLog[p.line] IN
-  CASE p.st = "called" /\ e.op \in {"Put", "NewConsumer", "Size", "Slice"} -> TRUE
+  CASE p.st = "called" /\ e.op \in {"Put", "NewConsumer", "Size", "Slice", "SetCleaner"} -> TRUE
     [] p.st = "called" /\ e.op = "BClose" -> ~bonce \/ bdone
     [] p.st = "called" /\ e.op = "Get" -> p.pre \/ (cst[e.c] # "absent" /\ cmu[e.c] = NoG)
        \* (a Get queued on the consumer mutex behind another Get has already passed its context check: by design)
@@ -250,6 +250,15 @@ LinRollback(g) ==
   /\ pend[g].st = "called" /\ CallOf(g).op = "Rollback"
   /\ cst[CallOf(g).c] # "absent"
   /\ \E r \in {"ok", "nothing"} : MatchR(g, r) /\ Rollback(CallOf(g).c, r)
+  /\ SetPend(g, "done")
+
+\* SetCleanerConfig while the buffer is in use: from its linearization point on the new cleaner decides what is retained /
+\* must be reclaimed (the quiescent checks use the current cleaner)
+LinSetCleaner(g) ==
+  /\ pend[g].st = "called" /\ CallOf(g).op = "SetCleaner"
+  /\ MatchR(g, "ok")
+  /\ LET c == CallOf(g).cleaner IN
+       SetCleaner(IF c.kind \in {"fixed", "const"} THEN [kind |-> c.kind, max |-> c.max, target |-> c.target] ELSE [kind |-> "default"])
   /\ SetPend(g, "done")
 
 \* C04, bounded delay (sustain profile, single consumer under the default cleaner): Commit returns carry a timestamp and the
@@ -380,7 +389,7 @@ BRRollback(g) ==
 
 LinAny(g) ==
   \/ LinPut(g) \/ LinNewConsumer(g) \/ LinGetQuick(g) \/ LinGetAcquire(g) \/ LinGetDone(g)
-  \/ LinCommit(g) \/ LinRollback(g) \/ LinSize(g) \/ LinSlice(g) \/ LinDiff(g)
+  \/ LinCommit(g) \/ LinRollback(g) \/ LinSize(g) \/ LinSlice(g) \/ LinDiff(g) \/ LinSetCleaner(g)
   \/ LinCloseBegin(g) \/ LinCloseOk(g) \/ LinCloseAgain(g)
   \/ LinBCloseBegin(g) \/ LinBCloseOk(g) \/ LinBCloseAgain(g)
   \/ BRDiff0(g) \/ BRTopCancel(g) \/ BRGetQuick(g) \/ BRGetAcquire(g) \/ BRGetDone(g) \/ BRDiff(g) \/ BRCommit(g) \/ BRRollback(g)
@@ -394,8 +403,15 @@ TSilent ==
            \/ Clean
   /\ UNCHANGED <<cancelled, cdone, rs>>
 
+\* invalid cleaner configurations are refused and leave the configuration as it was
+TBadCleaner ==
+  /\ IsEv("badcleaner") /\ Consume
+  /\ Cur.refused /\ Cur.hasfn /\ Cur.cooldown_us = Cur.want_us
+  /\ UNCHANGED <<vars, pend, cancelled, cdone, rs>>
+
 TVNext ==
   \/ TSilent
+  \/ TBadCleaner
   \/ TReset \/ TCall \/ TRet \/ TBcb \/ TCancel \/ TCancelled \/ TRBegin \/ TCb \/ TREnd \/ TQuiescent \/ TFinal
 
 TVSpec == TVInit /\ [][TVNext]_tvars
